@@ -295,14 +295,26 @@ def _scribble(v):
         v.append("__scribble__")
 
 
+class ForwardOnly:
+    """A stream that can only be read forward (a pipe, a socket): read() and nothing else."""
+
+    def __init__(self, data):
+        self._fo = io.BytesIO(data)
+
+    def read(self, n=-1):
+        return self._fo.read(n)
+
+
 def read_both(fa, W, R, payload, value_datum):
     from fastavro._read_common import SchemaResolutionError
 
     results = []
-    for how in ("schemaless", "schemaless-parsed", "container", "container-parsed"):
+    for how in ("schemaless", "schemaless-parsed", "container", "container-parsed", "schemaless-forward-only"):
         try:
             if how == "schemaless":
                 got = fa.schemaless_reader(io.BytesIO(payload), copy.deepcopy(W), copy.deepcopy(R))
+            elif how == "schemaless-forward-only":
+                got = fa.schemaless_reader(ForwardOnly(payload), copy.deepcopy(W), copy.deepcopy(R))
             elif how == "schemaless-parsed":
                 got = fa.schemaless_reader(io.BytesIO(payload), fa.parse_schema(copy.deepcopy(W)), fa.parse_schema(copy.deepcopy(R)))
             elif how == "container-parsed":
